@@ -73,6 +73,22 @@ def harness(sym):
                           f"{t}/{ev}: tick {tt}: {kind} of {name} while {other_name} is live; log {sc.uod}")
         if kind == "init":
             live[iid] = name
+    # "requesting such a command first cancels the older one": the newer of two conflicting requests is the one that runs.
+    # Judged when nothing else interferes: no failing command, no Stop / cancel event, no still newer conflicting request,
+    # not within the last ticks before the final Stop.
+    if not fail_at and ev not in ("Stop", "cancel"):
+        reqs = sc.requests
+        inited = {iid for (_t, _n, iid, k) in sc.uod if k == "init"}
+
+        def conflict(a, b):
+            return a == b or any(a in ov and b in ov for ov in OVERLAPS)
+        for j in range(1, len(reqs)):
+            tj, nj, ij = reqs[j]
+            older = [r for r in reqs[:j] if conflict(r[1], nj) and r[2] in inited or (conflict(r[1], nj) and r[0] == tj)]
+            newer = [r for r in reqs[j + 1:] if conflict(r[1], nj) and r[0] <= tj + 2]
+            if older and not newer and tj < N - 7:
+                sym.check(ij in inited, f"newer-conflicting-request-did-not-run|cmd={nj}",
+                          lambda: f"{t}/{ev}: request {j} ({nj}, tick {tj}) conflicts with the older {[(r[1], r[0]) for r in older]} but was never initialised; requests {[(r[0], r[1]) for r in reqs]}; callbacks {[(x[0], x[1], x[3]) for x in sc.uod]}")
     # every instance is finalized exactly once by the end (the run is stopped at the end of every scenario)
     for iid, rec in by_inst.items():
         evs = [k for (_t, k) in rec["events"]]
@@ -88,6 +104,16 @@ def _run(sym, t, pc, durations, fail_at, ev, te, overlaps=None):
     sc = Scenario()
     with engine_rig(sym, pc, durations=durations, fail_at=fail_at, overlaps=overlaps) as rig:
         e = rig.engine
+        sc.requests = []                       # (tick index, command name, instance id) in request order (observer only)
+        import openpectus.engine.command_manager as CM
+        orig_schedule = CM.CommandManager.schedule
+
+        def schedule(cm, req):
+            if req.name in ("CmdA", "CmdB", "CmdC"):
+                sc.requests.append((rig.ticks, req.name, req.instance_id))
+            return orig_schedule(cm, req)
+        CM.CommandManager.schedule = schedule
+        sc._restore = lambda: setattr(CM.CommandManager, "schedule", orig_schedule)
         rig.user("Start")
         for i in range(N):
             e.uod.hwl.mem["In1"] = 1 if i >= 2 else 0
@@ -117,6 +143,7 @@ def _run(sym, t, pc, durations, fail_at, ev, te, overlaps=None):
         sc.uod = list(rig.rec.uod)
         sc.tick_errors = list(rig.tick_errors)
         sc.command_instances = dict(e.uod.command_instances)
+        sc._restore()
     return sc
 
 
